@@ -46,8 +46,8 @@ class NotificationCenter():
 
     @classmethod
     def register_one_shot(cls, obj, msg, listener, action):
-        def one_shot_action(*args):
-            action(*args)
+        def one_shot_action(*args, **kwargs):
+            action(*args, **kwargs)
             cls.unregister(obj, msg, listener)
         cls.register(obj, msg, listener, one_shot_action)
 
